@@ -113,6 +113,12 @@ func (u *memoryManagementUnit) fetchCacheLine(addr int32) []int8 {
 }
 
 func (u *memoryManagementUnit) pushLineToL3(addr comp.AlignedAddress, line []int8) {
+	// The line that is displaced when the cache is full is the least recently
+	// used one: it is the one that has to be written back
+	victim := addr
+	if lines := u.l3.Lines(); len(lines) != 0 {
+		victim = lines[len(lines)-1].Boundary[0]
+	}
 	evicted := u.l3.PushLine(addr, line)
 	for i, pending := range u.pendings {
 		if pending[0] == int32(addr) {
@@ -127,7 +133,7 @@ func (u *memoryManagementUnit) pushLineToL3(addr comp.AlignedAddress, line []int
 	if len(evicted) == 0 {
 		return
 	}
-	u.writeToMemory(int32(addr), line)
+	u.writeToMemory(int32(victim), evicted)
 }
 
 func (u *memoryManagementUnit) writeToL3(addr int32, data []int8) {
